@@ -528,7 +528,15 @@ pub fn run_c12(rep: &mut Report, rng: &mut Rng, thorough: bool) {
             }
             if is_xz {
                 // stream padding: mostly legal multiples of 4, sometimes illegal
-                let pad = if k + 1 == n && rng.chance(1, 2) { 0 } else { *rng.pick(&[0usize, 0, 4, 8, 12, 1, 2, 3, 5]) };
+                // (the format puts no upper bound on the padding: lengths around the widths of narrow counters -
+                //  u8, u16 - and a few KiB are part of the legal and illegal sets)
+                let pad = if k + 1 == n && rng.chance(1, 2) {
+                    0
+                } else if rng.chance(1, 5) {
+                    *rng.pick(&[252usize, 256, 260, 1024, 4096, 65532, 65536, 65540, 255, 257, 1023, 65535, 65537])
+                } else {
+                    *rng.pick(&[0usize, 0, 4, 8, 12, 1, 2, 3, 5])
+                };
                 pads.push(pad);
                 bytes.extend(std::iter::repeat(0u8).take(pad));
             }
